@@ -294,10 +294,15 @@ def b_rebin(ctx):
     warnings.simplefilter('ignore')
     pool = [[0, 1, 2, 3], [0, 0.5, 3], [0, 3], [0, 1.5, 3], [0, 0.1, 0.2, 3], [-1, 0, 4], [0, 1, 2.5, 3, 5], [0, 2.999, 3], [-2, 3.5], [0, 1, 3], [0, 0.75, 1.5, 2.25, 3], [0, 2, 3, 7]]
     counts_pool = [[1, 2, 3], [0, 5, 0], [10, 0, 1], [2.5, 2.5, 2.5]]
-    ctx.bound = "source binnings: the 3/2/1-class members of a pool of 12 gap-free irregular binnings with counts from 4 patterns; targets: every pool member covering the source; integer bin counts 1..4 with the source classes listed in order / reversed / rotated"
+    ctx.bound = "source binnings: the 3/2/1-class members of a pool of 12 gap-free irregular binnings with counts from 4 patterns; targets: every pool member covering the source; all breaks also scaled by 1e-9 and 1e6; integer bin counts 1..4 with the source classes listed in order / reversed / rotated"
     ctx.rule = "non-trivial: target differs from the source; distinct by (source, counts, target)"
     ctx.exhaustive = True
-    for sb in pool:
+    # the unit of the load axis is the user's (MPa, Pa, strain ...): the pool as it is and scaled by 1e-9 / 1e6 (added after seed C14-d treated overlaps below 1e-8
+    # load units as "touching only")
+    pool0 = pool
+    for unit, sb0 in [(u, b) for u in (1.0, 1e-9, 1e6) for b in pool0]:
+        pool = [[x * unit for x in b] for b in pool0]
+        sb = [x * unit for x in sb0]
         for counts in counts_pool:
             if len(counts) < len(sb) - 1:
                 continue
